@@ -260,6 +260,28 @@ func runC15(r *Report) {
 			}
 		}
 		r.Ob("R-C15-3", hs.Pos(), deleg, "hybrid SetNX returns the tier's SetNX verdict unchanged", "hybrid.Storage.SetNX", "delegates")
+		// ... and the claim lives as long as the claimant asked: the lifetime handed to the tier is the
+		// caller's ttl itself (a marker that expires earlier than its id frees the id for a second owner)
+		var ttlParam *ssa.Parameter
+		for _, p := range hs.Params {
+			if _, n := recvTypeName(p.Type()); n == "Duration" {
+				ttlParam = p
+			}
+		}
+		for _, c := range Calls(hs, false, "SetNX", "Set") {
+			if !c.Common().IsInvoke() || ttlParam == nil {
+				continue
+			}
+			args := c.Common().Args
+			if len(args) == 0 {
+				continue
+			}
+			last := args[len(args)-1]
+			if _, n := recvTypeName(last.Type()); n != "Duration" {
+				continue
+			}
+			r.Ob("R-C15-3", CallPos(c), stripValue(last) == ssa.Value(ttlParam), "hybrid SetNX hands the caller's ttl to the tier unchanged ("+originSummary(last)+")", "hybrid.Storage.SetNX", "claim-lifetime-unchanged:"+c.Common().Method.Name())
+		}
 	}
 
 	// a claim attempted in one tier is final: no fall-through to another tier's claim or write
